@@ -1,5 +1,7 @@
 (** C16 — No request can touch files outside the data root.
-    Statement file: the property theorems, each closed by [exact] of a lemma proved in Proofs/. *)
+    Statement file: the property theorems, each closed by [exact] of a lemma proved in Proofs/.
+    (After the fix "AddTimeBucket validates the items of the key" the statement holds for ALL keys; the former
+    guard [key_guard], the statement C16_full and its refutation are gone.) *)
 From Coq Require Import ZArith List Bool String.
 From Coq.Strings Require Import Byte.
 Import ListNotations.
@@ -10,60 +12,36 @@ Require Import MS.Base.Hex MS.Base.Path MS.Model.Catalog MS.Proofs.Path_facts MS
 Definition confined (root : list byte) (ops : list op) : Prop :=
   let '(w, _, _) := run root ops in forallb (fun s => within root (sys_path s)) (wtr w) = true.
 
-(** Guarded statement (what holds of the code at HEAD): for every absolute root and EVERY sequence of
-    create / write / destroy / query requests with arbitrary key strings, timeframe verdicts, years and
-    schemas, starting from an empty data root — provided the item part of every create and write key
-    never climbs above the directory it starts from ([key_guard]: counting "" and "." as 0, ".." as -1
-    and any other component as +1, no prefix sums below 0) — all mutating system calls stay inside the
-    root.  Keys of destroy and query requests are unrestricted. *)
-Theorem C16_guarded : forall root ops,
-  is_rooted root = true -> forallb op_guard ops = true -> confined root ops.
-Proof. intros root ops Hr Hg. exact (run_confined root Hr ops Hg). Qed.
-Print Assumptions C16_guarded.
-
-(** Full statement (the property quantifies over ALL key strings): the same without the guard. *)
-Definition C16_full : Prop := forall root ops, is_rooted root = true -> confined root ops.
+(** For every absolute root and EVERY sequence of create / write / destroy / query / restart requests with
+    ARBITRARY key strings ('..', '.', empty and absolute-looking components, extra or missing components, any
+    category part), timeframe verdicts, years and schemas, starting from an empty data root, all mutating
+    system calls stay inside the root. *)
+Theorem C16_confined : forall root ops, is_rooted root = true -> confined root ops.
+Proof. intros root ops Hr. exact (run_confined root Hr ops). Qed.
+Print Assumptions C16_confined.
 
 Definition s (x : string) : list byte := bytes_of_string x.
 Definition C16_root : list byte := s "/a/b/c/r".
-(** DataService.Create with key "../1Min/OHLCV:Symbol/Timeframe/AttributeGroup": the symbol ".." makes
-    AddTimeBucket mkdir /a/b/c/1Min, /a/b/c/1Min/OHLCV, write category_name files into /a/b/c and
-    below, and create the year file there *)
-Definition C16_witness : list op :=
-  [OpCreate (s "../1Min/OHLCV:Symbol/Timeframe/AttributeGroup") true 2026 [x00]].
 
-Theorem C16_refuted : ~ C16_full.
-Proof.
-  intros H. specialize (H C16_root C16_witness eq_refl). vm_compute in H. discriminate H.
-Qed.
-Print Assumptions C16_refuted.
-
-(** ... and Destroy of the same key then RemoveAll's outside the root *)
-Example C16_witness_destroy :
-  let '(w, _, _) := run C16_root (C16_witness ++ [OpDestroy (s "../1Min/OHLCV")]) in
-  existsb (fun x => match x with SRmAll p => negb (within C16_root p) | _ => false end) (wtr w) = true.
+(** the former witnesses: a key whose symbol is ".." (create, write with auto-create, destroy) is rejected and
+    nothing at all is touched *)
+Example C16_hostile_rejected :
+  (let '(w, c, codes) := run C16_root
+      [ OpCreate (s "../1Min/OHLCV:Symbol/Timeframe/AttributeGroup") true 2026 [x00];
+        OpWrite (s "../1Min/OHLCV") true [2021; 2022]%Z [x00];
+        OpWrite (s "A/../../1Min/TICK:X/Y/X/Timeframe/AttributeGroup") true [2023]%Z [x00];
+        OpCreate (s "/A/./1Min/OHLCV:S/S/T/T/AttributeGroup") true 2026 [x00];
+        OpDestroy (s "../1Min/OHLCV") ] in (wtr w, codes))
+  = ([], [1; 1; 1; 1; 1]).
 Proof. vm_compute. reflexivity. Qed.
 
-(** the boolean guard means exactly: walking the items from the root never leaves it *)
-Theorem C16_guard_walk : forall root key d,
-  is_rooted root = true -> depth_ok (key_items key) 0 = true ->
-  d = depth_after (key_items key) 0 ->
-  inrootd root d (join2 root (key_item_key key)).
-Proof.
-  intros root key d Hr Hk ->. apply inrootd_join_items; auto. apply inrootd_root; auto.
-Qed.
-Print Assumptions C16_guard_walk.
-
-(** Non-vacuity: a run with odd but guarded keys (absolute-looking, ".", an inner ".." that stays
-    inside, a write that auto-creates and adds a year, destroys incl. one with a climbing key) meets
-    the hypotheses of C16_guarded, succeeds, and does touch the file system (25 system calls).
-    The same run is replayed on the real code (corpus/C16/odd_guarded.json). *)
+(** Non-vacuity: a run that creates, auto-creates, adds a year and destroys does touch the file system. *)
 Definition C16_example : list op :=
-  [ OpCreate (s "/A/5Min/../1Min/./OHLCV:Symbol/Symbol/Timeframe/Q/Timeframe/AttributeGroup/AttributeGroup") true 2026 [x00];
+  [ OpCreate (s "A/1Min/OHLCV:Symbol/Timeframe/AttributeGroup") true 2026 [x00];
     OpWrite (s "B/1Min/TICK") true [2021; 2022]%Z [x01];
     OpDestroy (s "B/1Min/TICK");
     OpDestroy (s "../whatever") ].
 Example C16_nonvacuous :
-  is_rooted C16_root = true /\ forallb op_guard C16_example = true
-  /\ (let '(w, _, codes) := run C16_root C16_example in (List.length (wtr w), codes)) = (25, [0; 0; 0; 1]).
+  is_rooted C16_root = true
+  /\ (let '(w, _, codes) := run C16_root C16_example in (List.length (wtr w), codes)) = (23, [0; 0; 0; 1]).
 Proof. vm_compute. auto. Qed.
